@@ -320,8 +320,167 @@ class PathResolver:
 
 
 def sym_paths(fn: T.Union[ast.FunctionDef, ast.AsyncFunctionDef], *, body: T.Optional[T.List[ast.stmt]] = None,
-              unroll: int = 1, handlers: bool = False, pure: T.Optional[T.Set[str]] = None) -> T.List[SymPath]:
+              unroll: int = 1, handlers: bool = False, pure: T.Optional[T.Set[str]] = None,
+              helpers: T.Optional[T.Dict[str, ast.FunctionDef]] = None) -> T.List[SymPath]:
     out = []
-    for p in enumerate_paths(body if body is not None else fn.body, unroll=unroll, handlers=handlers, pure=pure or set()):
+    stmts = body if body is not None else fn.body
+    if helpers:
+        stmts = inline_helpers(list(stmts), {k: v for k, v in helpers.items() if v is not fn})
+    for p in enumerate_paths(stmts, unroll=unroll, handlers=handlers, pure=pure or set()):
         out.append(PathResolver(SymPath(p)).run())
     return out
+
+
+# ---------------------------------------------------------------------------
+# extracted private helpers: splice the callee's statements into the caller before the paths are enumerated
+# ---------------------------------------------------------------------------
+
+import copy as _copy
+
+
+class _Rename(ast.NodeTransformer):
+    def __init__(self, mapping: T.Dict[str, str]):
+        self.mapping = mapping
+
+    def visit_Name(self, n: ast.Name) -> ast.AST:
+        if n.id in self.mapping:
+            return ast.copy_location(ast.Name(id=self.mapping[n.id], ctx=n.ctx), n)
+        return n
+
+    def visit_FunctionDef(self, n: ast.FunctionDef) -> ast.AST:
+        return n        # nested definitions keep their own scope
+
+    def visit_Lambda(self, n: ast.Lambda) -> ast.AST:
+        return n
+
+
+def _callee_of(call: ast.AST, helpers: T.Dict[str, ast.FunctionDef]) -> T.Optional[ast.FunctionDef]:
+    if isinstance(call, ast.Call) and isinstance(call.func, ast.Attribute) and isinstance(call.func.value, ast.Name) and call.func.value.id in ('self', 'cls') \
+            and call.func.attr in helpers:
+        return helpers[call.func.attr]
+    return None
+
+
+def _instantiate(callee: ast.FunctionDef, call: ast.Call, tag: str) -> T.Optional[T.List[ast.stmt]]:
+    """Callee body with parameters bound to the call's arguments and every local renamed apart; None if the call shape is not plain."""
+    a = callee.args
+    if a.vararg or a.kwarg or a.posonlyargs or any(isinstance(x, ast.Starred) for x in call.args) or any(k.arg is None for k in call.keywords):
+        return None
+    if any(isinstance(n, (ast.Yield, ast.YieldFrom, ast.Await, ast.Global, ast.Nonlocal)) for n in ast.walk(callee)):
+        return None
+    params = [p.arg for p in a.args]
+    if not params or params[0] not in ('self', 'cls'):
+        return None
+    params = params[1:]
+    bound: T.Dict[str, ast.AST] = {}
+    if len(call.args) > len(params):
+        return None
+    for p, v in zip(params, call.args):
+        bound[p] = v
+    kwonly = [p.arg for p in a.kwonlyargs]
+    for k in call.keywords:
+        if k.arg in bound or k.arg not in params + kwonly:
+            return None
+        bound[k.arg] = k.value          # type: ignore[index]
+    defaults = dict(zip(params[len(params) - len(a.defaults):], a.defaults))
+    defaults.update({p: d for p, d in zip(kwonly, a.kw_defaults) if d is not None})
+    for p in params + kwonly:
+        if p not in bound:
+            if p not in defaults:
+                return None
+            bound[p] = defaults[p]
+    local_names = {n.id for n in ast.walk(callee) if isinstance(n, ast.Name) and isinstance(n.ctx, (ast.Store, ast.Del))} | set(params) | set(kwonly)
+    mapping = {n: f'{tag}{n}' for n in local_names}
+    body = [_Rename(mapping).visit(_copy.deepcopy(s)) for s in callee.body]
+    if body and isinstance(body[0], ast.Expr) and isinstance(body[0].value, ast.Constant) and isinstance(body[0].value.value, str):
+        body = body[1:]
+    pre: T.List[ast.stmt] = []
+    for p in params + kwonly:
+        st = ast.Assign(targets=[ast.Name(id=mapping[p], ctx=ast.Store())], value=_copy.deepcopy(bound[p]))
+        pre.append(ast.copy_location(st, call))
+    out = pre + body
+    for s in out:
+        ast.fix_missing_locations(s)
+    return out
+
+
+def _returns(body: T.List[ast.stmt]) -> T.List[ast.Return]:
+    out = []
+    for s in body:
+        for n in ast.walk(s):
+            if isinstance(n, ast.Return):
+                out.append(n)
+    return out
+
+
+def inline_helpers(body: T.List[ast.stmt], helpers: T.Dict[str, ast.FunctionDef], depth: int = 2, _counter: T.Optional[T.List[int]] = None,
+                   _stack: T.Tuple[str, ...] = ()) -> T.List[ast.stmt]:
+    """Copy of `body` in which statement-level calls of the given same-class helpers are replaced by the helper's statements:
+         return self._h(a)      -> the helper body (its returns are the caller's returns)
+         self._h(a)             -> the helper body, if it has no `return`
+         x = self._h(a)         -> the helper body, if its only `return` is its last statement, then `x = <returned expression>`
+    Anything else stays an opaque call (the rules then see an unknown callee and must not guess)."""
+    counter = _counter if _counter is not None else [0]
+
+    def expand(callee: ast.FunctionDef, call: ast.Call) -> T.Optional[T.List[ast.stmt]]:
+        if depth <= 0 or callee.name in _stack:
+            return None
+        counter[0] += 1
+        inst = _instantiate(callee, call, f'_inl{counter[0]}_')
+        if inst is None:
+            return None
+        return inline_helpers(inst, helpers, depth - 1, counter, _stack + (callee.name,))
+
+    out: T.List[ast.stmt] = []
+    for st in body:
+        if isinstance(st, ast.Return) and st.value is not None:
+            c = _callee_of(st.value, helpers)
+            if c is not None:
+                inst = expand(c, st.value)          # type: ignore[arg-type]
+                if inst is not None:
+                    if not inst or not isinstance(inst[-1], (ast.Return, ast.Raise)):
+                        inst = inst + [ast.copy_location(ast.Return(value=None), st)]
+                    out.extend(inst)
+                    continue
+        elif isinstance(st, ast.Expr):
+            c = _callee_of(st.value, helpers)
+            if c is not None and not _returns(c.body):
+                inst = expand(c, st.value)          # type: ignore[arg-type]
+                if inst is not None:
+                    out.extend(inst)
+                    continue
+        elif isinstance(st, ast.Assign) and len(st.targets) == 1:
+            c = _callee_of(st.value, helpers)
+            if c is not None:
+                rets = _returns(c.body)
+                if len(rets) == 1 and c.body and c.body[-1] is rets[0] and rets[0].value is not None:
+                    inst = expand(c, st.value)      # type: ignore[arg-type]
+                    if inst is not None and isinstance(inst[-1], ast.Return):
+                        last = inst[-1]
+                        out.extend(inst[:-1])
+                        out.append(ast.copy_location(ast.Assign(targets=[_copy.deepcopy(st.targets[0])], value=last.value), st))
+                        ast.fix_missing_locations(out[-1])
+                        continue
+        new = st
+        if isinstance(st, (ast.If, ast.For, ast.AsyncFor, ast.While, ast.With, ast.AsyncWith, ast.Try)):
+            new = _copy.copy(st)
+            for field in ('body', 'orelse', 'finalbody'):
+                sub = getattr(st, field, None)
+                if isinstance(sub, list) and sub and isinstance(sub[0], ast.stmt):
+                    setattr(new, field, inline_helpers(sub, helpers, depth, counter, _stack))
+            if isinstance(st, ast.Try):
+                hs = []
+                for h in st.handlers:
+                    h2 = _copy.copy(h)
+                    h2.body = inline_helpers(h.body, helpers, depth, counter, _stack)
+                    hs.append(h2)
+                new.handlers = hs
+        out.append(new)
+    return out
+
+
+def private_helpers(cls: ast.ClassDef, stop: T.Iterable[str] = ()) -> T.Dict[str, ast.FunctionDef]:
+    """Private (underscore, non-dunder) methods of a class: candidates for having been extracted from a public method."""
+    stop = set(stop)
+    return {s.name: s for s in cls.body if isinstance(s, ast.FunctionDef) and s.name.startswith('_') and not s.name.startswith('__') and s.name not in stop
+            and not s.decorator_list}
